@@ -164,7 +164,15 @@ def run(c):
                 fh.write("%s %d %d %s\n" % (cs["t"], len(cs["p"]), cs.get("s", 3), " ".join(" ".join(map(str, p)) for p in cs["p"])))
         rc, out = vlib.sh("%s %s" % (exe, f), timeout=600)
         if rc != 0:
-            raise vlib.Inconclusive("orient harness failed rc=%d %s" % (rc, out[-300:]))
+            # the predicates themselves crashed or did not return: the lines answered so far are compared, the next case is reported
+            lines = [l for l in out.splitlines() if l and all(tok.lstrip("-").isdigit() for tok in l.split())]
+            k = len(lines)
+            c.violation("predicate:crash-or-hang:%s" % ("orient3d" if k < len(cases) and cases[k]["t"] == "o" else "insphere"),
+                        "the geometric predicates did not return for %s (harness rc=%d: 124 = time limit, 134 = abort, 139 = segmentation "
+                        "fault)" % (cases[k] if k < len(cases) else "?", rc), {"case": cases[k] if k < len(cases) else None})
+            out = "\n".join(lines)
+            cases = cases[:k]
+            signs = signs[:k]
         got = [tuple(map(int, l.split())) for l in out.splitlines()]
         return deg, cases, signs, got, r
 
